@@ -362,7 +362,24 @@ def strategies():
 
     def scenario(kind, nclients, auto=False):
         return ops_for(kind, nclients).map(lambda ops: dict({"kind": kind, "clients": nclients, "ops": ops}, **({"auto_deliver": True} if auto else {})))
-    return st.one_of(scenario("json", 1), scenario("json", 1), scenario("memory", 1), scenario("redis-dict", 1), scenario("redis-dict", 2), scenario("redis-dict", 2), scenario("redis-list", 1), scenario("redis-list", 2),
+    # persistence of the file store: whatever was written last (also by writing back the object the store handed out, or an equal value after in-memory
+    # nested updates) is there after the file is opened again
+    @st.composite
+    def json_persist(draw):
+        k = draw(key)
+        ops = draw(st.lists(st.one_of(*[x for x in [st.fixed_dictionaries({"op": st.just("set"), "key": key, "value": st.sampled_from(DICTS), "client": st.just(0)}),
+                                                    st.fixed_dictionaries({"op": st.just("delete"), "key": key, "client": st.just(0)})]]), max_size=3))
+        ops.append({"op": "set", "key": k, "value": draw(st.sampled_from(DICTS[:5])), "client": 0})
+        for _ in range(draw(st.integers(0, 2))):
+            ops.append({"op": "nested", "key": k, "field": draw(st.sampled_from(FIELDS)), "value": draw(st.sampled_from(VALUES)), "client": 0})
+        last = draw(st.sampled_from(["rmw", "reset_equal", "rmw+reset_equal"]))
+        if "rmw" in last:
+            ops.append({"op": "rmw", "key": k, "field": draw(st.sampled_from(FIELDS)), "value": draw(st.sampled_from(VALUES)), "client": 0})
+        if "reset_equal" in last:
+            ops.append({"op": "reset_equal", "key": k, "client": 0})
+        ops += [{"op": "reopen", "client": 0}, {"op": "get", "key": k, "client": 0}]
+        return {"kind": "json", "clients": 1, "ops": ops}
+    return st.one_of(scenario("json", 1), json_persist(), scenario("memory", 1), scenario("redis-dict", 1), scenario("redis-dict", 2), scenario("redis-dict", 2), scenario("redis-list", 1), scenario("redis-list", 2),
                      scenario("redis-dict", 2, auto=True), scenario("redis-list", 2, auto=True))
 
 
